@@ -92,7 +92,9 @@ def binary_search_lightness(
 
             # Track best valid candidate
             if contrast >= target_contrast:
-                if delta_e < best_delta_e:
+                # a candidate that meets the target always beats one that does not,
+                # even if the earlier (insufficient) candidate was closer
+                if best_contrast < target_contrast or delta_e < best_delta_e:
                     best_rgb = candidate_rgb
                     best_delta_e = delta_e
                     best_contrast = contrast
